@@ -484,6 +484,20 @@ def mutate(rng, o, r, nobj, ops):
             ops.append(["setCoordinateLocation", i, xyz])
 
 
+def record_edit_states(ctx, fixture, r, new_ops):
+    """one evaluated case per applied edit; distinct = distinct (input, edit kind [+ value form], object class)"""
+    objs = all_objects(r)
+    for op in new_ops:
+        kind = op[0]
+        cls = type(objs[op[1]]).__name__ if len(op) > 1 and isinstance(op[1], int) and op[1] < len(objs) else "-"
+        form = ""
+        if kind == "setparam":
+            v = op[3]
+            form = ("array%dd" % np.ndim(v)) if isinstance(v, list) else type(v).__name__
+        ctx.case((fixture, kind, form, cls), nontrivial=True)
+        ctx.count(f"edit kind: {kind}{' ' + form if form else ''}")
+
+
 def apply_ops(r, ops, o=None):
     """replay of recorded edits on a fresh fixture"""
     from armi.reactor import grids
@@ -955,12 +969,13 @@ def full_core_round(ctx, rng, req, impl, cases):
             o, r = load_fixture("reference")
             ops = []
             mutate(rng, o, r, 150, ops)
+            record_edit_states(ctx, "reference", r, ops)
             geometryConverters.ThirdCoreHexToFullCoreChanger(o.cs).convert(r)
             ops.append(["fullCore"])
             refresh_derived(r)
             fn, r2, nd = roundtrip_checks(ctx, "reference", o, r, ops, "fullcore", deep=True)
             layout_correspondence(ctx, "reference", r, fn, r2, req, impl, cases)
-            ctx.case(("reference", "fullcore", len(ops)), nontrivial=True)
+            ctx.case(("reference", "fullCore", "", "Core"), nontrivial=True)
             ctx.count("reference: third-core -> full-core conversion round trip")
         except WriteRejected as e:
             ctx.count(f"reference full core: state refused at write time ({e})")
@@ -989,8 +1004,10 @@ def run(ctx):
                 if rd > 0:
                     with silence():
                         try:
+                            n_before = len(ops)
                             mutate(rng, o, r, nobj, ops)
                             refresh_derived(r)
+                            record_edit_states(ctx, fixture, r, ops[n_before:])
                         except Exception as e:  # noqa: BLE001 - the edits themselves left an inconsistent model
                             ctx.count(f"{fixture}: edited state invalid before saving ({type(e).__name__})")
                             o, r = load_fixture(fixture)
